@@ -82,7 +82,7 @@ def install(ip):
         # truncation toward zero
         return z3.If(v >= 0, z3.ToInt(v), -z3.ToInt(-v))
       if z3.is_bv(v):
-        return z3.BV2Int(v)
+        return v          # ints that come from 32-bit hash arithmetic stay bit-vectors
       h = ip.ext.get(('int', v.sort().name()))
       if h:
         return h(ip, v)
